@@ -66,7 +66,13 @@ def main():
             os.chdir(os.path.join(root, item[2] if len(item) > 2 else "a"))
             cats = {n: yaw.Catalog(n) for n in ("R", "U", "RR")}  # relative cache paths
             yawx.sequential(W)
-            conf = yaw.Configuration.create(rmin=[0.3, 0.9], rmax=[1.1, 3.4], unit="deg", edges=edges[name])
+            if len(item) > 3:  # physical scales with an unnamed (user-defined) cosmology
+                from checks import c15
+
+                conf = yaw.Configuration.create(rmin=[2500.0, 7000.0], rmax=[9000.0, 28000.0], unit="kpc", edges=edges[name],
+                                                cosmology=c15.cosmo_obj(item[3]))
+            else:
+                conf = yaw.Configuration.create(rmin=[0.3, 0.9], rmax=[1.1, 3.4], unit="deg", edges=edges[name])
             last = c05.obs_corrfuncs(yaw.crosscorrelate(conf, cats["R"], cats["U"], ref_rand=cats["RR"], unk_rand=cats["U"]))
         os.chdir("/")
         runner.cleanup_scratch()
